@@ -132,6 +132,16 @@ class World:
             if len(self.net.dialling) > n0:
                 self.conns.append({'kind': 'out', 'key': key, 'sock': self.net.dialling[-1], 'remote': None, 'open': True,
                                    'established': False})
+            else:
+                # connect() failed on the spot (unreachable network / multicast address)
+                cp = self.node.nm.connected_peers.get(key)
+                if cp is not None and cp.sock is not None and not cp.sock.closed:
+                    # the node keeps the socket: its error state is reported by the selector later ('refuse' event)
+                    self.conns.append({'kind': 'out', 'key': key, 'sock': cp.sock, 'remote': None, 'open': True,
+                                       'established': False, 'syncfail': True})
+                else:
+                    # the node has given the attempt up already: it ended without a greeting
+                    r['k'] += 1
         self.node.lp.start_outgoing_connection = dial
 
     # ---- helpers
@@ -159,7 +169,7 @@ class World:
             if not c['open']:
                 continue
             if c['kind'] == 'out' and not c['established']:
-                ev += [('establish', i), ('refuse', i)]
+                ev += [('refuse', i)] if c.get('syncfail') else [('establish', i), ('refuse', i)]
                 continue
             for mp in (1, 2):
                 for own in (False, True):
